@@ -1054,7 +1054,7 @@ pub fn views_sweep(r: &Report) {
         let mut p10 = 1_000_000i128;
         for _ in 0..24 {
             counts.push(p10);
-            p10 *= 10;
+            p10 = p10.saturating_mul(10);
         }
         for c in counts {
             for d in [-1i128, 0, 1] {
@@ -1062,7 +1062,8 @@ pub fn views_sweep(r: &Report) {
                     if rem >= unit {
                         continue;
                     }
-                    let x = (c + d) * unit + rem;
+                    // (counts far beyond the range overflow even i128: skipped)
+                    let Some(x) = (c + d).checked_mul(unit).and_then(|x| x.checked_add(rem)) else { continue };
                     ladder.push(x);
                     ladder.push(-x);
                 }
